@@ -27,7 +27,14 @@ pub struct Sc { pub mode: Mode, pub pre_datagrams: usize, pub live_datagrams: us
     /// injected and the callback lingers, so that the other thread is blocked on the lock when stop() runs
     pub inflight: bool,
     /// a whole short-lived FramedTcp client session (connect, three messages, close) completes before the listener call
-    pub pre_session: bool }
+    pub pre_session: bool,
+    /// after the listener started: a FramedTcp client connects, sends one message (payload 600000) and closes at once;
+    /// the callback that gets that message lingers 120 ms (so that the FIN is queued behind it) and stops the node
+    pub live_session_stop: bool,
+    /// traffic that does NOT end with the stop: a datagram every 5 ms until the listener has returned
+    pub flood: bool,
+    /// a thread arms and cancels far-future signal timers every 10 ms until the listener has returned
+    pub timer_churn: bool }
 
 struct Shared {
     in_cb: AtomicBool,
@@ -49,7 +56,9 @@ fn on_event(sh: &Shared, handler: &NodeHandler<u64>, sc: &Sc, kind: char, payloa
     if kind == 'n' { sh.net_order.lock().unwrap().push(payload); }
     if sc.cb_micros > 0 { std::thread::sleep(Duration::from_micros(sc.cb_micros + (payload % 3) * 50)); }
     let nets = sh.net_order.lock().unwrap().len();
-    let stop_now = match sc.stop {
+    let session_msg = kind == 'n' && payload == 600_000 && sc.live_session_stop;
+    if session_msg { std::thread::sleep(Duration::from_millis(120)); }
+    let stop_now = session_msg || match sc.stop {
         StopAt::NetEvent(k) => kind == 'n' && nets == k + 1,
         StopAt::Signal(k) => kind == 's' && payload as usize == k,
         _ => false,
@@ -129,6 +138,26 @@ pub fn run_scenario(sc: &Sc, out: &mut Out) -> Option<String> {
     // live activity
     std::thread::sleep(Duration::from_millis(15));
     for i in 0..sc.live_datagrams { sock.send_to(&((sc.pre_datagrams + i) as u64).to_le_bytes(), addr).unwrap(); std::thread::sleep(Duration::from_micros(400)); }
+    let bg_stop = Arc::new(AtomicBool::new(false));
+    let mut bg = vec![];
+    if sc.flood {
+        let (bg_stop, addr) = (bg_stop.clone(), addr);
+        bg.push(std::thread::spawn(move || { let s = UdpSocket::bind("127.0.0.1:0").unwrap(); while !bg_stop.load(Ordering::SeqCst) { let _ = s.send_to(&900_002u64.to_le_bytes(), addr); std::thread::sleep(Duration::from_millis(5)); } }));
+    }
+    if sc.timer_churn {
+        let (bg_stop, h2) = (bg_stop.clone(), handler.clone());
+        bg.push(std::thread::spawn(move || { while !bg_stop.load(Ordering::SeqCst) { let id = h2.signals().send_with_timer(900_003, Duration::from_secs(3600)); std::thread::sleep(Duration::from_millis(10)); h2.signals().cancel_timer(id); } }));
+    }
+    if sc.live_session_stop {
+        use std::io::Write;
+        if let Ok((_fl, faddr)) = handler.network().listen(Transport::FramedTcp, "127.0.0.1:0") {
+            if let Ok(mut c) = std::net::TcpStream::connect(faddr) {
+                let mut bytes = vec![8u8]; bytes.extend_from_slice(&600_000u64.to_le_bytes());
+                let _ = c.write_all(&bytes);
+                drop(c); // FIN right behind the message
+            }
+        }
+    }
     if let StopAt::External(ms) = sc.stop { std::thread::sleep(Duration::from_millis(ms)); handler.stop(); verif::trace("ext_stop", 0); }
     // a safety net: nothing stops the node by itself in some scenarios
     let deadline = Instant::now() + Duration::from_millis(1500);
@@ -140,12 +169,14 @@ pub fn run_scenario(sc: &Sc, out: &mut Out) -> Option<String> {
         }
         std::thread::sleep(Duration::from_millis(2));
     }
+    bg_stop.store(true, Ordering::SeqCst);
+    for b in bg { let _ = b.join(); }
     let t_stop_to_return = t_start.elapsed();
     let ret = returned.load(Ordering::SeqCst);
     if ret { lt.join().unwrap(); }
     let recs = verif::take();
     // ---- implementation-level oracles ----------------------------------------------------------
-    let name = format!("{:?} pre={} live={} signals={} stop={:?}{}", sc.mode, sc.pre_datagrams, sc.live_datagrams, sc.signals, sc.stop, if sc.inflight { " with the other thread queued on the callback lock" } else { "" });
+    let name = format!("{:?} pre={} live={} signals={} stop={:?}{}", sc.mode, sc.pre_datagrams, sc.live_datagrams, sc.signals, sc.stop, format!("{}{}{}{}", if sc.inflight { " with the other thread queued on the callback lock" } else { "" }, if sc.live_session_stop { "; stop() from the callback of a message whose sender closed right behind it" } else { "" }, if sc.flood { "; a datagram keeps arriving every 5 ms also after the stop" } else { "" }, if sc.timer_churn { "; far timers are armed and cancelled every 10 ms also after the stop" } else { "" }));
     if sh.overlaps.load(Ordering::SeqCst) > 0 { out.violation(&format!("[C05] the event callback was entered while another invocation was still running ({} overlaps) in {}", sh.overlaps.load(Ordering::SeqCst), name)); }
     if sc.mode != Mode::Enqueue {
         let after = sh.calls_after_stop.load(Ordering::SeqCst);
@@ -295,27 +326,33 @@ pub fn run(a: &Args) {
     let mut r = Rng::new(a.seed);
     let mut scs: Vec<Sc> = vec![];
     for mode in [Mode::ForEach, Mode::ForEachAsync, Mode::Enqueue] {
-        scs.push(Sc { mode, pre_datagrams: 4, live_datagrams: 6, signals: 6, stop: StopAt::BeforeStart, cb_micros: 0, inflight: false, pre_session: false });
-        scs.push(Sc { mode, pre_datagrams: 0, live_datagrams: 0, signals: 0, stop: StopAt::BeforeStart, cb_micros: 0, inflight: false, pre_session: false });
+        scs.push(Sc { mode, pre_datagrams: 4, live_datagrams: 6, signals: 6, stop: StopAt::BeforeStart, cb_micros: 0, inflight: false, pre_session: false, live_session_stop: false, flood: false, timer_churn: false });
+        scs.push(Sc { mode, pre_datagrams: 0, live_datagrams: 0, signals: 0, stop: StopAt::BeforeStart, cb_micros: 0, inflight: false, pre_session: false, live_session_stop: false, flood: false, timer_churn: false });
         let max_idx = if a.thorough { 12 } else { 5 };
         for k in 0..max_idx {
-            scs.push(Sc { mode, pre_datagrams: 5, live_datagrams: 8, signals: 6, stop: StopAt::NetEvent(k), cb_micros: 200, inflight: false, pre_session: false });
-            scs.push(Sc { mode, pre_datagrams: 3, live_datagrams: 10, signals: 8, stop: StopAt::Signal(k), cb_micros: 300, inflight: false, pre_session: false });
+            scs.push(Sc { mode, pre_datagrams: 5, live_datagrams: 8, signals: 6, stop: StopAt::NetEvent(k), cb_micros: 200, inflight: false, pre_session: false, live_session_stop: false, flood: false, timer_churn: false });
+            scs.push(Sc { mode, pre_datagrams: 3, live_datagrams: 10, signals: 8, stop: StopAt::Signal(k), cb_micros: 300, inflight: false, pre_session: false, live_session_stop: false, flood: false, timer_churn: false });
         }
         for k in 0..(if a.thorough { 6 } else { 2 }) {
-            scs.push(Sc { mode, pre_datagrams: 2, live_datagrams: 6, signals: 6, stop: StopAt::Signal(2 + k), cb_micros: 100, inflight: true, pre_session: false });
-            scs.push(Sc { mode, pre_datagrams: 2, live_datagrams: 8, signals: 4, stop: StopAt::NetEvent(3 + k), cb_micros: 100, inflight: true, pre_session: false });
+            scs.push(Sc { mode, pre_datagrams: 2, live_datagrams: 6, signals: 6, stop: StopAt::Signal(2 + k), cb_micros: 100, inflight: true, pre_session: false, live_session_stop: false, flood: false, timer_churn: false });
+            scs.push(Sc { mode, pre_datagrams: 2, live_datagrams: 8, signals: 4, stop: StopAt::NetEvent(3 + k), cb_micros: 100, inflight: true, pre_session: false, live_session_stop: false, flood: false, timer_churn: false });
         }
-        scs.push(Sc { mode, pre_datagrams: 3, live_datagrams: 5, signals: 4, stop: StopAt::External(150), cb_micros: 0, inflight: false, pre_session: true });
-        scs.push(Sc { mode, pre_datagrams: 0, live_datagrams: 4, signals: 0, stop: StopAt::NetEvent(8), cb_micros: 100, inflight: false, pre_session: true });
+        scs.push(Sc { mode, pre_datagrams: 3, live_datagrams: 5, signals: 4, stop: StopAt::External(150), cb_micros: 0, inflight: false, pre_session: true, live_session_stop: false, flood: false, timer_churn: false });
+        scs.push(Sc { mode, pre_datagrams: 0, live_datagrams: 4, signals: 0, stop: StopAt::NetEvent(8), cb_micros: 100, inflight: false, pre_session: true, live_session_stop: false, flood: false, timer_churn: false });
+        scs.push(Sc { mode, pre_datagrams: 0, live_datagrams: 3, signals: 2, stop: StopAt::NetEvent(99), cb_micros: 0, inflight: false, pre_session: false, live_session_stop: true, flood: false, timer_churn: false });
+        scs.push(Sc { mode, pre_datagrams: 2, live_datagrams: 5, signals: 3, stop: StopAt::External(120), cb_micros: 100, inflight: false, pre_session: false, live_session_stop: false, flood: true, timer_churn: false });
+        scs.push(Sc { mode, pre_datagrams: 2, live_datagrams: 5, signals: 3, stop: StopAt::NetEvent(4), cb_micros: 100, inflight: false, pre_session: false, live_session_stop: false, flood: false, timer_churn: true });
+        scs.push(Sc { mode, pre_datagrams: 0, live_datagrams: 4, signals: 3, stop: StopAt::Signal(1), cb_micros: 0, inflight: false, pre_session: false, live_session_stop: false, flood: true, timer_churn: true });
+        // a long live burst handled by a slow callback (hundreds of events out of single polls) while signals fire
+        scs.push(Sc { mode, pre_datagrams: 0, live_datagrams: 260, signals: 24, stop: StopAt::NetEvent(259), cb_micros: 250, inflight: false, pre_session: false, live_session_stop: false, flood: false, timer_churn: false });
         // a long start-up cache, a callback slow enough for the live traffic to arrive during the replay
-        scs.push(Sc { mode, pre_datagrams: 300, live_datagrams: 30, signals: 4, stop: StopAt::NetEvent(329), cb_micros: 150, inflight: false, pre_session: false });
-        scs.push(Sc { mode, pre_datagrams: 20, live_datagrams: 40, signals: 20, stop: StopAt::NetEvent(45), cb_micros: 100, inflight: false, pre_session: false });
-        scs.push(Sc { mode, pre_datagrams: 6, live_datagrams: 30, signals: 30, stop: StopAt::External(40), cb_micros: 500, inflight: false, pre_session: false });
-        scs.push(Sc { mode, pre_datagrams: 0, live_datagrams: 30, signals: 9, stop: StopAt::Signal(8), cb_micros: 2000, inflight: false, pre_session: false });
+        scs.push(Sc { mode, pre_datagrams: 300, live_datagrams: 30, signals: 4, stop: StopAt::NetEvent(329), cb_micros: 150, inflight: false, pre_session: false, live_session_stop: false, flood: false, timer_churn: false });
+        scs.push(Sc { mode, pre_datagrams: 20, live_datagrams: 40, signals: 20, stop: StopAt::NetEvent(45), cb_micros: 100, inflight: false, pre_session: false, live_session_stop: false, flood: false, timer_churn: false });
+        scs.push(Sc { mode, pre_datagrams: 6, live_datagrams: 30, signals: 30, stop: StopAt::External(40), cb_micros: 500, inflight: false, pre_session: false, live_session_stop: false, flood: false, timer_churn: false });
+        scs.push(Sc { mode, pre_datagrams: 0, live_datagrams: 30, signals: 9, stop: StopAt::Signal(8), cb_micros: 2000, inflight: false, pre_session: false, live_session_stop: false, flood: false, timer_churn: false });
         for _ in 0..(if a.thorough { 20 } else { 2 }) {
             scs.push(Sc { mode, pre_datagrams: r.below(12) as usize, live_datagrams: r.below(30) as usize, signals: r.below(15) as usize,
-                stop: if r.chance(1, 2) { StopAt::NetEvent(r.below(20) as usize) } else { StopAt::Signal(r.below(10) as usize) }, cb_micros: *r.pick(&[0u64, 100, 1000]), inflight: r.chance(1, 2), pre_session: r.chance(1, 3) });
+                stop: if r.chance(1, 2) { StopAt::NetEvent(r.below(20) as usize) } else { StopAt::Signal(r.below(10) as usize) }, cb_micros: *r.pick(&[0u64, 100, 1000]), inflight: r.chance(1, 2), pre_session: r.chance(1, 3), live_session_stop: false, flood: r.chance(1, 4), timer_churn: r.chance(1, 4) });
         }
     }
     // scenarios share the process-wide hook trace: one at a time
